@@ -63,6 +63,8 @@ type SpecDB struct {
 	noblock    []*Sweep
 	fieldFns   map[string]*ssa.Function // field array name -> spec function standing for calls through that func-typed field
 	getters    map[string]bool
+	detFns     map[string]bool
+	assumeAssert map[string]bool
 	dynCalls   map[string]*ssa.Function // "fn#k" -> spec function for the k-th dynamic call in fn
 	curProps   []string
 }
@@ -118,6 +120,9 @@ func (db *SpecDB) pureExt(fn *ssa.Function) bool {
 // (value) arguments.
 func (db *SpecDB) detExt(fn *ssa.Function) bool {
 	pp := pkgPathOf(fn)
+	if db.detFns[fn.String()] {
+		return true
+	}
 	switch pp {
 	case "strings", "strconv", "slices", "bytes", "cmp", "path", "path/filepath", "unicode", "unicode/utf8", "encoding/base64", "encoding/hex", "crypto/md5", "net/netip", "math":
 		// functions taking pointers / writers are not value functions
@@ -133,6 +138,14 @@ func (db *SpecDB) detExt(fn *ssa.Function) bool {
 		case "JoinHostPort", "SplitHostPort", "ParseIP", "ParseCIDR":
 			return true
 		}
+	}
+	// accessors of library objects: deterministic in (receiver, arguments) as
+	// long as the object is not modified in between (requests and headers are
+	// read-only for the code under contract)
+	switch fn.String() {
+	case "(*net/http.Request).BasicAuth", "(net/http.Header).Get", "(*net/http.Request).Context", "(*net/http.Request).UserAgent",
+		"(net/http.Header).Values", "(*net/url.URL).Hostname", "(*net/url.URL).Port", "(*net/url.URL).String", "(net.IP).String", "(net.IP).To4":
+		return true
 	}
 	return false
 }
@@ -174,7 +187,7 @@ func findFunc(prog *ssa.Program, all map[string]*ssa.Function, name string) *ssa
 }
 
 func buildSpecDB(prog *ssa.Program, pkgs []*packages.Package, allFns map[string]*ssa.Function) *SpecDB {
-	db := &SpecDB{contracts: map[string]*Contract{}, pure: map[string]bool{}, uninterp: map[string]bool{}, guards: map[string]map[int]int{}, invariants: map[string][]*ssa.Function{}, loopAnns: map[string]*LoopAnn{}, pureExts: map[string]bool{}, nullable: map[string]bool{}, lockCache: map[*ssa.Function]bool{}, tables: map[string]bool{}, effectFree: map[string]bool{}, fieldFns: map[string]*ssa.Function{}, getters: map[string]bool{}, dynCalls: map[string]*ssa.Function{}}
+	db := &SpecDB{contracts: map[string]*Contract{}, pure: map[string]bool{}, uninterp: map[string]bool{}, guards: map[string]map[int]int{}, invariants: map[string][]*ssa.Function{}, loopAnns: map[string]*LoopAnn{}, pureExts: map[string]bool{}, nullable: map[string]bool{}, lockCache: map[*ssa.Function]bool{}, tables: map[string]bool{}, effectFree: map[string]bool{}, fieldFns: map[string]*ssa.Function{}, getters: map[string]bool{}, dynCalls: map[string]*ssa.Function{}, detFns: map[string]bool{}, assumeAssert: map[string]bool{}}
 	db.inlineExts = []string{"github.com/fatedier/golib/errors", "github.com/samber/lo"}
 	seen := map[string]bool{}
 	packages.Visit(pkgs, nil, func(p *packages.Package) {
@@ -444,6 +457,14 @@ func (db *SpecDB) readFile(prog *ssa.Program, p *packages.Package, spkg *ssa.Pac
 			case "pure-fn":
 				for _, n := range dir[1:] {
 					db.pure[expandName(n)] = true
+				}
+			case "assume-typeassert":
+				for _, n := range dir[1:] {
+					db.assumeAssert[expandName(n)] = true
+				}
+			case "det-fn":
+				for _, n := range dir[1:] {
+					db.detFns[expandName(n)] = true
 				}
 			case "getter":
 				for _, n := range dir[1:] {
